@@ -218,7 +218,7 @@ class ForestScenario(explore.Scenario):
     skip_class_names = ("LazyIntervalTree",)
 
     def __init__(self, pool, inits, props, c16_probes=False, ctor_ops=True,
-                 attr_ops=True, idx_wide=True):
+                 attr_ops=True, idx_wide=True, save_load_prefix=True):
         self.pool = pool
         self.inits = inits
         self.props = props
@@ -226,6 +226,7 @@ class ForestScenario(explore.Scenario):
         self.ctor_ops = ctor_ops
         self.attr_ops = attr_ops
         self.idx_wide = idx_wide
+        self.save_load_prefix = save_load_prefix
 
     # ------------------------------------------------------------ building
     def initial_states(self):
@@ -334,7 +335,7 @@ class ForestScenario(explore.Scenario):
         lists += [[mods[0], mods[0]]] if mods else []
         for ir in names_by_kind(w, "I"):
             n = len(w.model.mods[ir])
-            idx = sorted({0, 1, n, -1, -(n + 1)}) if self.idx_wide else [0, 1, -1]
+            idx = sorted({0, 1, n, -1, -(n + 1)})
             for m in mods:
                 out.append(["mods", ir, "append", m])
                 out.append(["mods", ir, "remove", m])
@@ -410,6 +411,8 @@ class ForestScenario(explore.Scenario):
 
     def prefix_ok(self, op):
         if op[0] in ("attr", "ctor"):
+            return False
+        if op[0] == "save_load" and not self.save_load_prefix:
             return False
         if op[0] == "set" and op[3] == "pop":
             return False
@@ -790,6 +793,10 @@ class ForestScenario(explore.Scenario):
             v.append(("C04/%s:%s:%s" % (sig, tag,
                                         self.shape(w, before_model, op)),
                       "after %s: %s" % (op, detail)))
+        if problems and exc is not None:
+            v.append(("C16/failed-operation-leaves-inconsistent-state:%s:%s"
+                      % (tag, self.shape(w, before_model, op)),
+                      "op %s raised %s and left: %s" % (op, exc, problems[0][1])))
         if not problems:
             if exc is not None and exp["exc"] is not None:
                 # failed operation: must be consistent (it is); adopt state
@@ -1384,9 +1391,10 @@ def plan(ctx):
             ("forest-q", ForestScenario("q", ["detached", "chain", "loaded"],
                                         props, c16_probes=c16,
                                         idx_wide=False), None),
-            ("forest-q2", ForestScenario("q2", ["detached", "chain", "loaded"],
-                                         props, c16_probes=c16,
-                                         idx_wide=False), None),
+            ("forest-q2", ForestScenario("q2", ["detached", "chain"],
+                                         props, c16_probes=c16, ctor_ops=False,
+                                         attr_ops=False, idx_wide=False,
+                                         save_load_prefix=False), None),
             ("forest-twins", ForestScenario("tiny", ["twins"], props,
                                             c16_probes=False, ctor_ops=False,
                                             attr_ops=False, idx_wide=False), 1),
